@@ -8,19 +8,24 @@ element raising while the next value is pulled -- after running through the func
 from pyvc.contracts import Contract, LoopSpec, ClassSpec
 
 CA = "lena/flow/cache.py"
-PART = "(self._filename + '.part')"
+# The generators are suspended at every yield while other code runs; an element shared by two pipelines may get a new
+# static context (and with it a new `_filename`) meanwhile -- ghost `suspended_changes`.  The flow being stored was computed
+# under the name the Cache had when the run started: every clause speaks about NAME = old(self._filename).
+NAME = "old(self._filename)"
+PART = "(old(self._filename) + '.part')"
+SUSP = {"fs": True, "suspended_changes": ["self._filename"]}
 
 
 def register(ix):
     ix.add_class(ClassSpec("Cache", CA, fields={
         "_filename": "Str", "_recompute": "Bool", "protocol": "Int",
         "_dump": "Lib[pickle.dump]", "_load": "Lib[pickle.load]"}))
-    UNTOUCHED = ["fs_entry(self._filename) == old(fs_entry(self._filename))",      # no truncated cache: the old state stays
+    UNTOUCHED = ["fs_entry(" + NAME + ") == old(fs_entry(self._filename))",      # no truncated cache: the old state stays
                  "not fs_exists(%s)" % PART]
     ix.add(Contract(
         CA, "Cache._dump_flow_and_yield", props=["C18"],
         params={"self": "Self[Cache]", "flow": "Iter[V]"}, generator=True, yields="V",
-        ghost={"fs": True}, upstream_raises=True,
+        ghost=SUSP, upstream_raises=True,
         requires=["pulled(flow) == 0"],
         loops={0: LoopSpec(invariant=[
             "len(out) == _i", "pulled(flow) == _i",
@@ -28,15 +33,15 @@ def register(ix):
             # the values seen so far are in the temporary file; the cache name still holds what it held before
             "fs_exists(%s)" % PART, "len(fs_content(%s)) == _i" % PART,
             "all(fs_content(%s)[k] == content(flow)[k] for k in range(_i))" % PART,
-            "fs_entry(self._filename) == old(fs_entry(self._filename))",
+            "fs_entry(" + NAME + ") == old(fs_entry(self._filename))",
             "not complete"])},
         at_yield=["pulled(flow) == len(out) + 1",           # laziness (C02): one value pulled per value handed on
                   "yielded is val"],                       # the flow passes unaltered
         # the first complete run stores the whole flow under the cache name
         ensures=["len(out) == len(content(flow))",
                  "all(out[k] == content(flow)[k] for k in range(len(out)))",
-                 "fs_exists(self._filename)", "len(fs_content(self._filename)) == len(content(flow))",
-                 "all(fs_content(self._filename)[k] == content(flow)[k] for k in range(len(content(flow))))",
+                 "fs_exists(" + NAME + ")", "len(fs_content(" + NAME + ")) == len(content(flow))",
+                 "all(fs_content(" + NAME + ")[k] == content(flow)[k] for k in range(len(content(flow))))",
                  "not fs_exists(%s)" % PART],
         on_abandon=UNTOUCHED,
         raises={"UpstreamError": "?"}, exc_ensures={"UpstreamError": UNTOUCHED},
